@@ -615,6 +615,23 @@ theorem distinctById_of_nodup (l : List Utxo) (h : (l.map (·.id)).Nodup) : dist
     intro heq
     exact h.1 (List.mem_map.mpr ⟨v, hv, heq⟩)
 
+/-- the first occurrence wins: an id that occurs in the first list is represented by a record of
+    the first list -/
+theorem distinctById_append_left : ∀ (l1 l2 : List Utxo) (u : Utxo), u ∈ distinctById (l1 ++ l2) →
+    (∃ c ∈ l1, c.id = u.id) → u ∈ l1 := by
+  intro l1
+  induction l1 with
+  | nil => intro l2 u _ h; obtain ⟨c, hc, _⟩ := h; cases hc
+  | cons x xs ih =>
+    intro l2 u hu hex
+    simp only [List.cons_append, distinctById, List.mem_cons, List.mem_filter, bne_iff_ne, ne_eq] at hu
+    rcases hu with rfl | ⟨hmem, hne⟩
+    · exact List.mem_cons_self
+    · obtain ⟨c, hc, hid⟩ := hex
+      rcases List.mem_cons.mp hc with rfl | hc'
+      · exact absurd hid.symm hne
+      · exact List.mem_cons_of_mem _ (ih l2 u hmem ⟨c, hc', hid⟩)
+
 /-- every candidate `findUtxos` returns was listed and matches the request -/
 theorem mem_matching {k : Keeper} {acct asset vote : Nat} {useUnc : Bool} {u : Utxo}
     (h : u ∈ matching k acct asset useUnc vote) :
